@@ -8,6 +8,7 @@
 (***************************************************************************)
 EXTENDS FamiliesE, Json
 
+CONSTANT Tier
 VARIABLE c
 
 Comp(id, subs, defs) == [id |-> id, subs |-> subs, defs |-> defs]
@@ -44,13 +45,40 @@ Comps == <<
   Comp("mixed-enum-string", << [enum |-> <<JInt(1), JS(<<"a">>), JS(<<"b">>)>>], SStr >>, << >>),
   Comp("mixed-enum-integer", << [enum |-> <<JInt(1), JS(<<"a">>), JInt(7)>>], SInt >>, << >>),
   Comp("ref-num-enum-number", << SRef("N"), SNum >>, ("N" :> [enum |-> <<JInt(1), JHalf(5), JInt(4)>>])),
+  Comp("int-and-number", << SInt, SNum >>, << >>),
+  Comp("number-and-uint8", << SNum, [type |-> "integer", format |-> "uint8"] >>, << >>),
+  Comp("number-and-typelist", << SNum, [types |-> <<"string", "integer">>] >>, << >>),
   Comp("unsat-types", << SStr, SInt >>, << >>),
   Comp("unsat-enums", << EnumS(<<JS(<<"a">>)>>), EnumS(<<JS(<<"b">>)>>) >>, << >>),
   Comp("unsat-required-false", << SObj(Props1("a", SFalse), {}), SObj(Props1("a", SInt), {"a"}) >>, << >>),
   Comp("same-twice", << OA, OA >>, << >>),
   Comp("true-and-obj", << STrue, OA >>, << >>) >>
 
-Init == \E k \in DOMAIN Comps : c = Comps[k]
+(* thorough tier: every unordered pair of an object pool and of a scalar pool, and every triple of
+   the first five object schemas *)
+ObjPool == << OA, OB, OC, SObjClosed(Props1("a", SInt), {"a"}), SObj(Props2("a", SInt, "b", SStr), {"a"}),
+              SObj(Props1("a", SStr), {}), With(OB, "additionalProperties", SInt), SRef("N"),
+              SObj(Props1("b", EnumS(<<JS(<<"a">>), JS(<<"b">>)>>)), {}),
+              SObj(Props1("b", EnumS(<<JS(<<"b">>), JS(<<"c">>)>>)), {"b"}),
+              [type |-> "object", required |-> <<"a">>],
+              SObj(Props1("a", SNullable(SInt)), {}) >>
+ScalarPool == << SStr, SInt, SNum, EnumS(<<JS(<<"a">>), JS(<<"b">>)>>), EnumS(<<JS(<<"b">>), JS(<<"c">>)>>),
+                 [type |-> "string", minLength |-> 1], [type |-> "string", maxLength |-> 1],
+                 [types |-> <<"string", "integer">>], [enum |-> <<JInt(1), JInt(2), JInt(3)>>],
+                 [enum |-> <<JInt(1), JS(<<"a">>)>>], [type |-> "integer", format |-> "uint8"] >>
+PairsOf(pool, pre, defs) ==
+    LET ps == SetToSeq({ p \in (DOMAIN pool) \X (DOMAIN pool) : p[1] < p[2] })
+    IN [k \in DOMAIN ps |-> Comp(pre \o "-" \o ToString(ps[k][1]) \o "-" \o ToString(ps[k][2]),
+                                 << pool[ps[k][1]], pool[ps[k][2]] >>, defs)]
+TriplesOf(pool, n, pre, defs) ==
+    LET ts == SetToSeq({ p \in (1 .. n) \X (1 .. n) \X (1 .. n) : p[1] < p[2] /\ p[2] < p[3] })
+    IN [k \in DOMAIN ts |-> Comp(pre \o "-" \o ToString(ts[k][1]) \o "-" \o ToString(ts[k][2]) \o "-" \o ToString(ts[k][3]),
+                                 << pool[ts[k][1]], pool[ts[k][2]], pool[ts[k][3]] >>, defs)]
+AllComps == IF Tier = "thorough"
+            THEN Comps \o PairsOf(ObjPool, "po", NDef) \o PairsOf(ScalarPool, "ps", << >>) \o TriplesOf(ObjPool, 5, "to", NDef)
+            ELSE Comps
+
+Init == \E k \in DOMAIN AllComps : c = AllComps[k]
 Next == UNCHANGED c
 Spec == Init /\ [][Next]_c
 
